@@ -266,8 +266,14 @@ def r94(chk, m):
     chk.call_sites += n_sites
     # the two legitimate currentlabel writers set it to the numbered node
     rs = m.func('plasTeX', 'Macro.refstepcounter')
-    ok = any(isinstance(n, ast.Assign) and text(n.targets[0]).endswith('context.currentlabel') and text(n.value) == 'self' for n in M.walk_no_nested(rs.node))
-    chk.verdict(R, 'refstepcounter makes the stepped node current', ok, 'refstepcounter must set context.currentlabel = self', chk.where(rs))
+    from . import c08
+    Macro = m.cls('plasTeX', 'Macro')
+    filt = A.private_only
+    for label, counter, want in (('a numbered node', 'equation', 'self'), ('a node without a counter', None, 'None')):
+        res = c08.run_macro(m, chk, rs, c08.macro_heap(m, Macro, counter=counter), Macro, filt=filt)
+        labs = sorted({r[2] for r in res if r[0] != 'raise'} | {'raise' for r in res if r[0] == 'raise'})
+        chk.decide(R, 'refstepcounter makes the stepped node current: %s' % label, set(labs), {want},
+                   'refstepcounter of %s leaves context.currentlabel = %s, expected %s' % (label, labs, want), chk.where(rs))
 
 
 def r95(chk, m, rule_id='R9.5'):
@@ -296,7 +302,11 @@ def r95(chk, m, rule_id='R9.5'):
     chk.verdict(R, 'the tables of a Context are distinct objects', not shared_lit and not aliases,
                 'Context.__init__ binds one container to several attributes (%s): labels restored from other documents (labels) and the '
                 'labels this document saves (persistentLabels) must be separate tables' % (shared_lit or aliases), chk.where(init))
-    for attr in ('labels', 'persistentLabels', 'refs', 'counters', 'contexts', 'packages', '_currenvir'):
+    shared_cls = [k for k, vs in Context.assigns.items() if any(isinstance(v, (ast.Dict, ast.List, ast.Set, ast.ListComp, ast.DictComp)) or
+                                                                (isinstance(v, ast.Call) and text(v.func) in ('dict', 'list', 'set', 'Counters')) for v in vs)]
+    chk.verdict(R, 'Context has no class-level container', not shared_cls,
+                'Context binds container(s) at class level (%s): every Context (every document of the process) shares that one object' % shared_cls, chk.where(Context))
+    for attr in ('labels', 'persistentLabels', 'refs', 'counters', 'contexts', 'packages'):
         v = assigned.get(attr)
         fresh = isinstance(v, (ast.Dict, ast.List)) and not (v.keys if isinstance(v, ast.Dict) else v.elts) or \
             (isinstance(v, ast.Call) and text(v.func) in ('dict', 'list', 'Counters', 'set') and not v.args)
